@@ -74,8 +74,8 @@ func program(cs []*Case, tagged bool) *cdm.Program {
 	seenA, seenS := map[string]bool{}, map[string]bool{}
 	for _, c := range cs {
 		for _, a := range c.Aliases {
-			if !seenA[a.Alias] {
-				seenA[a.Alias] = true
+			if !seenA[a.Alias+"/"+a.Def] {
+				seenA[a.Alias+"/"+a.Def] = true
 				p.Aliases = append(p.Aliases, a)
 			}
 		}
